@@ -113,8 +113,8 @@ func (p *Packet) decodeHead(data []byte) error {
 	if p.DataType != DataTypePenetrate {
 		end += 8
 	}
-	if p.DataType == DataTypeI || p.DataType == DataTypeP || p.DataType == DataTypeB {
-		p.customAttributes.videoFrame = true
+	p.customAttributes.videoFrame = p.DataType == DataTypeI || p.DataType == DataTypeP || p.DataType == DataTypeB
+	if p.customAttributes.videoFrame {
 		end += 4
 	}
 
